@@ -1,4 +1,4 @@
-\* intended design, 5 operations and 6 ticks (thorough tier)
+\* intended design, 6 operations and 7 ticks (thorough tier)
 SPECIFICATION Spec
 CONSTANTS
   Base = 2
@@ -16,8 +16,9 @@ CONSTANTS
   HistCaps = {1, 2}
   HistReasons = {1, 2}
   HistAges = {0, 2}
-  MaxTime = 6
-  MaxOps = 5
+  HistMaxTime = 2
+  MaxTime = 7
+  MaxOps = 6
   SecUnit = 2
   Epoch = 0
   AsImplemented_JitterAboveMax = FALSE
@@ -27,8 +28,7 @@ CONSTANTS
   AsImplemented_IgnoresRecommendation = FALSE
   AsImplemented_DefaultKeepsNothing = FALSE
   Variant_CriticalSkipsCooldown = FALSE
-INVARIANTS TypeOK NoProceedWhenGated WaitBounded PermanentNeverRetried TransientNotBlocked ReasonClasses ProceedFollowsRecommendation
-           SameGates FitnessMapping BackoffWithinCap BackoffMonotoneInFailures AttemptSetsBackoff SuccessResets CircuitTrips
+INVARIANTS TypeOK Decisions ReasonClasses BackoffWithinCap BackoffMonotoneInFailures AttemptSetsBackoff SuccessResets CircuitTrips
            OpenMeansFailures PrefixTracking EvalRecords HBounded HRecordKeepsLatest HRecentRules HCommonRules
 PROPERTIES CountersMonotone BackoffGrows TimeOnlyHelps
 CHECK_DEADLOCK FALSE
